@@ -11,6 +11,7 @@ Nodes are tuples (JSON friendly once listified):
   ('print', template_text, [quals])
 A program is {"scan": str, "comps": [node...], "mode": "AND"|"OR"}.
 """
+import zlib
 import json
 
 # ------------------------------------------------------------------ rendering
@@ -338,7 +339,7 @@ class Gen:
         if f == "sum":
             return ("fn", "sum", [r.choice([("hdr", "a"), ("hdr", "b"), self.num(1)])], [self.fresh("sm")] + q)
         if f == "counter":
-            a = [] if r.random() < 0.6 else [("int", r.choice([1, 2, 5]))]
+            a = [] if r.random() < 0.6 else [("int", r.choice([1, 2, 5, 0, 0]))]
             return ("fn", "counter", a, [self.fresh("ct")] + q)
         if f in ("push", "push_distinct"):
             if not self.stacks or r.random() < 0.5:
@@ -450,7 +451,13 @@ class Gen:
             return ("when", self.boolv(2), ("fn", "advance", [("int", r.choice([1, 2, 3]))], []))
         if k == "stopw":
             return ("when", self.boolv(2), ("fn", "stop", [], []))
-        return ("when", self.boolv(2), ("fn", "skip", [], []))
+        cond = self.boolv(2)
+        # a quarter of the guarded skips carry 'once' (decided from the condition's text: no extra draw from the stream);
+        # at most one per program, because identical components share their internal once-variable
+        once = zlib.crc32(repr(cond).encode()) % 4 == 0 and not getattr(self, "_once_skip", False)
+        if once:
+            self._once_skip = True
+        return ("when", cond, ("fn", "skip", [], ["once"] if once else []))
 
     def failform(self):
         r = self.r
